@@ -40,6 +40,8 @@ pub enum EditKind {
     HugeLiteral,
     /// bits width replaced by 65..300
     BitsWidth,
+    /// bits width changed to another value <= 64: the row has too many / too few entries
+    BitsResize,
     /// a header name duplicated
     DupHeader,
     /// a `declare` repeated with the same name
@@ -48,7 +50,7 @@ pub enum EditKind {
     HeaderOnly,
 }
 
-pub const ALL_EDITS: [EditKind; 19] = [
+pub const ALL_EDITS: [EditKind; 20] = [
     EditKind::DeleteEndLine,
     EditKind::DeleteEndKeyword,
     EditKind::SwapEndKeyword,
@@ -65,6 +67,7 @@ pub const ALL_EDITS: [EditKind; 19] = [
     EditKind::DropArg,
     EditKind::HugeLiteral,
     EditKind::BitsWidth,
+    EditKind::BitsResize,
     EditKind::DupHeader,
     EditKind::DupDeclare,
     EditKind::HeaderOnly,
@@ -89,6 +92,7 @@ impl EditKind {
             EditKind::DropArg => "edit:drop-argument",
             EditKind::HugeLiteral => "edit:huge-literal",
             EditKind::BitsWidth => "edit:bits-width",
+            EditKind::BitsResize => "edit:bits-resize",
             EditKind::DupHeader => "edit:duplicate-header-name",
             EditKind::DupDeclare => "edit:duplicate-declare",
             EditKind::HeaderOnly => "edit:header-without-line-break",
@@ -269,6 +273,7 @@ fn sites(lines: &[Line]) -> Vec<Site> {
                 let is_bits_width = ti >= 2 && is_word(&line.toks[ti - 2], "bits") && is_sym(&line.toks[ti - 1], "(");
                 if is_bits_width {
                     v.push(Site { kind: EditKind::BitsWidth, line: li, tok: ti });
+                    v.push(Site { kind: EditKind::BitsResize, line: li, tok: ti });
                 } else {
                     v.push(Site { kind: EditKind::HugeLiteral, line: li, tok: ti });
                 }
@@ -396,6 +401,13 @@ pub fn break_lines(lines: &[Line], ch: &mut Ch) -> Option<Broken> {
         EditKind::BitsWidth => {
             let w = 65 + ch.upto(236);
             out[li].toks[ti] = raw(&w.to_string());
+        }
+        EditKind::BitsResize => {
+            let TokClass::Num(k, _) = out[li].toks[ti].class else { return None };
+            // any other width in 0..=64 changes the number of columns the row covers
+            let grow = k < 64 && (k == 0 || ch.chance(2, 3));
+            let nk = if grow { k + 1 + ch.upto((64 - k as usize).min(3)) as u64 } else { k - 1 - ch.upto((k as usize).min(2)) as u64 };
+            out[li].toks[ti] = Tok { text: nk.to_string(), class: TokClass::Num(nk, crate::model::Radix::Dec) };
         }
         EditKind::DupHeader => {
             let n = out[0].toks.len();
